@@ -49,7 +49,7 @@ CHECKS = {
  "C14": dict(
    engine="rng",
    category="exploration",
-   text="The simulator owns the draw stream: numpy.random.rand/randn are replaced by a per-run deterministic stream, and in edge runs ~70% of the uniform draws are replaced by boundary values of the row's own CDF (0.0, the smallest subnormal, breakpoints and their float neighbours, 1-2^-53), with reach probes for 'draw on a leading zero-mass cell' and 'draw >= final CDF value'. Per draw, exact identities: inputs/output of the sample; exactly one finite point per (particle, batch element), lying in the support; total mass equal to the original's, both by direct summation and through funsor's own Delta reduction rules; Gaussians: zero noise gives the (conditional) mean and unit noise vectors give columns A with A A^T = the (conditional) covariance (dense numpy model of the sampler's contract), marginal mass preserved; Deltas: value at/away from the point, unit-mass reduce and Integrate identities. Determinism: the same stream after a prefix of unrelated events (gc, fresh-name jump, dispatch-cache drop, other work) and in a second hash world must give the byte-identical sample.",
+   text="The simulator owns the draw stream: numpy.random.rand/randn are replaced by a per-run deterministic stream, and in edge runs ~70% of the uniform draws are replaced by boundary values of the row's own CDF (0.0, the smallest subnormal, breakpoints and their float neighbours, 1-2^-53), with reach probes for 'draw on a leading zero-mass cell' and 'draw >= final CDF value'; for small tensors (<=6 cells quick, <=16 thorough) every boundary value of every row's CDF is enumerated at every draw position. Per draw, exact identities: inputs/output of the sample; exactly one finite point per (particle, batch element), lying in the support; total mass equal to the original's, both by direct summation and through funsor's own Delta reduction rules; Gaussians: zero noise gives the (conditional) mean and unit noise vectors give columns A with A A^T = the (conditional) covariance (dense numpy model of the sampler's contract), marginal mass preserved; Deltas: value at/away from the point, unit-mass reduce and Integrate identities. Determinism: the same stream after a prefix of unrelated events (gc, fresh-name jump, dispatch-cache drop, other work) and in a second hash world must give the byte-identical sample.",
    design_ref="DESIGN.md section 6 (C14)",
    note="numpy backend only (funsor's own inverse-CDF sampler). The reduce/Integrate identities are claimed for unit-mass Deltas only, as the property states. Mass identities use rtol 1e-6; support and range are exact.",
    technique="deterministic simulation: owned random stream with injected boundary draws; per-draw exact identities; prefix/world determinism"),
